@@ -85,6 +85,7 @@ class C19(Prop):
         'NUL and DEL may be dropped by the tokenizer but nothing else',
         'a token text may contain NUL/DEL (kept) - allowed by the statement',
     )
+    always_probes = ('tok',)     # bounded progress + empty-token contract on every case
     probes = ('tok', 'buf', 'reach')
     probed_every = 40
     reach_required = ['category.categorize', 'tokens.next_token', 'tokens.tokenize', 'tokens.tokenize_ignore', 'tokens.tokenize_spacers', 'tokens.tokenize_string', 'utils.Token.__iadd__']
